@@ -50,6 +50,37 @@ def cmp_formula(ctx, rule, key, got_term, want_nf, b, fn, what, masks=()):
     return r
 
 
+def branch_distance_agrees(operand, value):
+    """The distance a branch is SELECTED on (the operand of the mask / test) against the distance the branch formula is EVALUATED on (the
+    argument of its logarithm).  True: the same term; False: the formula's distance is the tested one plus something (the mindist shift
+    applied after the mask was taken) or the other way round - elements between the two thresholds get the formula of the wrong branch;
+    None: anything else."""
+    logs = [x[2][0] for x in walk(value) if isinstance(x, tuple) and x and x[0] == "call" and callee(x) in ("numpy.log", "math.log") and x[2]]
+    if not logs:
+        return None
+    verdict = True
+    for a in logs:
+        def core(x):
+            x = Q.unwrap(x)
+            while True:
+                if x[0] == "binop" and x[1] == "**":       # log(r**2), log(r**r): the base carries the distance
+                    x = Q.unwrap(x[2])
+                elif x[0] == "sub" and not is_const(x[2]):  # distance[mask]
+                    x = Q.unwrap(x[1])
+                else:
+                    return x
+        a = core(a)
+        o = core(operand)
+        if a == o:
+            continue
+        def shifted(x, y):
+            return x[0] == "binop" and x[1] in ("+", "-") and (x[2] == y or x[3] == y) and not is_const(x[3] if x[2] == y else x[2])
+        if shifted(a, o) or shifted(o, a):
+            return False
+        verdict = None
+    return verdict
+
+
 def r1_r2_biharmonic(ctx):
     # ---- numpy kernel: masked piecewise stores into the returned buffer
     qn = "verde.spline.greens_func_numpy"
@@ -111,6 +142,10 @@ def r1_r2_biharmonic(ctx):
                           bad="the branch covering %s is not finite there: %s" % ("r = 0" if covers_low else "large r", why), fn=qn, line=e.line)
             else:
                 ctx.add("R2", "%s|defined|%s" % (qn, tag), "UNDECIDED", "branch mask is not a comparison of the distance with a constant", fn=qn)
+            if t is not None:
+                ctx.check("R2", "%s|selected-and-evaluated-on-one-distance|%s" % (qn, tag), branch_distance_agrees(t[0], e.data[2]),
+                          "the mask is taken on the same (shifted) distance the branch formula uses",
+                          bad="the mask is taken on another distance than the formula is evaluated on (the mindist shift lies between them): elements between the two thresholds get the wrong branch", fn=qn, line=e.line)
     # ---- jit kernel: if/else
     qn = "verde.spline.greens_func_jit"
     b = Builder(Space(), synonyms=synonyms(ctx, qn, "kernels.biharmonic"))
@@ -135,6 +170,9 @@ def r1_r2_biharmonic(ctx):
                 ok, why = None, "no interval model for " + str(ex)
             ctx.check("R2", "%s|defined|%s" % (qn, "low" if covers_low else "high"), ok, "the branch is finite on its part of the distance range (%s)" % why,
                       bad="the branch covering %s is not finite there: %s" % ("r = 0" if covers_low else "large r", why), fn=qn)
+            ctx.check("R2", "%s|selected-and-evaluated-on-one-distance|%s" % (qn, "low" if covers_low else "high"), branch_distance_agrees(c[2], p.value),
+                      "the test is made on the same (shifted) distance the branch formula uses",
+                      bad="the branch is selected on another distance than the formula is evaluated on (the mindist shift lies between them)", fn=qn)
 
 
 def g_call(t, names):
